@@ -43,7 +43,8 @@ func (b *Bar) SortEvents() {
 }
 
 func (b Bar) Len() uint8 {
-	return b.TimeSig[0] * 32 / b.TimeSig[1]
+	// calculate with more than 8 bits: the numerator times 32 overflows uint8 from 8/x on (e.g. 9/8, 12/8)
+	return uint8(uint16(b.TimeSig[0]) * 32 / uint16(b.TimeSig[1]))
 }
 
 func (b *Bar) barPos(absTicks int64, ticks smf.MetricTicks) uint8 {
